@@ -138,6 +138,7 @@ TypeOf(mt) == Trim(Split(mt, 59)[1])                       \* type as written (b
 \* length of the shortest spelling of a normalised media type
 MinMtLen(n) == (IF n.type = TextPlain THEN 0 ELSE Len(n.type))
                + FoldLeft(LAMBDA a, p : a + 1 + Len(p), 0, n.params)
+               + (IF n.params # <<>> /\ n.params[Len(n.params)] = Base64Tok THEN 1 ELSE 0)   \* ";base64;" - else it would be the marker
 
 \* ---------------------------------------------------------------- the relation
 KMin(p) == Count(p, MustEscape)
